@@ -45,6 +45,41 @@ def run(pb, req):
         return read_sql(pb, req["path"])
     if op == "sql_read":
         return read_sql(pb, req["path"])
+    if op == "write_fail":
+        # write from an iterable that raises after `fail_after` tuples (None: never), then look at
+        # what is at the path
+        entries = [tuple(e) for e in req["entries"]]
+        fail_after = req.get("fail_after")
+
+        def gen():
+            for i, e in enumerate(entries):
+                if fail_after is not None and i == fail_after:
+                    raise RuntimeError("the source failed")
+                yield e
+
+        raised = None
+        w = pb.open(req["path"], "w")
+        try:
+            w.write(req["chroms"], gen())
+        except BaseException as ex:
+            raised = repr(ex)
+        try:
+            w.close()
+        except BaseException:
+            pass
+        out = {"raised": raised, "opened": False, "counts": {}, "error": None}
+        try:
+            b = pb.open(req["path"])
+            out["opened"] = True
+            for c in req["chroms"]:
+                try:
+                    out["counts"][c] = len(list(b.records(c)))
+                except BaseException as ex:
+                    out["counts"][c] = repr(ex)
+            b.close()
+        except BaseException as ex:
+            out["error"] = repr(ex)
+        return out
     if op == "records":
         # records() / zoom_records() for a list of (chrom, start, end) with None for "not given";
         # opened by path or from a Python file object
